@@ -83,6 +83,17 @@ StepSetAttr ==
      /\ fails' = fails \cup Judge(R, R2, T, Line, rej)
      /\ R' = R2 /\ prevO' = Line.obs /\ UNCHANGED <<T, rej>>
 
+\* clear() / clear_edges(): the reference is emptied (clear_edges keeps nodes and attributes)
+StepClear ==
+  /\ Line.op \in {"clear", "clear_edges"}
+  /\ LET R2 == IF Line.res # "ok" THEN R
+               ELSE IF Line.op = "clear" THEN EmptyRef(R.dir, R.rem)
+               ELSE [EmptyRef(R.dir, R.rem) EXCEPT !.nodes = R.nodes, !.maybe = R.maybe, !.attr = R.attr]
+         T2 == IF Line.res = "ok" THEN {} ELSE T
+     IN /\ fails' = fails \cup Judge(R, R2, T2, Line, rej)
+        /\ IF Line.fork THEN UNCHANGED <<R, T, prevO, rej>>
+           ELSE R' = R2 /\ T' = T2 /\ prevO' = Line.obs /\ UNCHANGED rej
+
 StepObserve ==
   /\ Line.op = "observe"
   /\ fails' = fails \cup Judge(R, R, T, Line, rej)
@@ -144,7 +155,7 @@ StepPaths ==
 Step == /\ brs' = IF l <= Len(Traces[tid]) /\ Line.op = "add_interaction"
                    THEN brs \cup { <<BranchOf(R, Line), Line.res>> } ELSE brs
         /\ l <= Len(Traces[tid])
-        /\ (StepNew \/ StepAdd \/ StepNode \/ StepSetAttr \/ StepObserve \/ StepBattery \/ StepDerive \/ StepParse \/ StepPaths \/ StepStats \/ StepGuard \/ StepConf)
+        /\ (StepNew \/ StepAdd \/ StepNode \/ StepSetAttr \/ StepClear \/ StepObserve \/ StepBattery \/ StepDerive \/ StepParse \/ StepPaths \/ StepStats \/ StepGuard \/ StepConf)
         /\ l' = l + 1
         /\ UNCHANGED tid
 
